@@ -1,4 +1,5 @@
 import OpcuaModel.Model.Tamper
+import OpcuaModel.Model.TamperChan
 /-
   C09 — tampered, truncated or forged secured chunks are rejected.
 
@@ -169,6 +170,169 @@ theorem C09_secured_mode_rejects (policyNone isAsym : Bool) (P : Params) (dec : 
 theorem C09_carveout_table (m p a : Bool) :
     carveOut m p a = true ↔ m = true ∧ (p = true ∨ a = false) := by
   cases m <;> cases p <;> cases a <;> simp [carveOut]
+
+/-! ### The channel level: `readChunk` and the retry over the stored instances -/
+
+/-- one instance on one decoded chunk never panics (the header length comes
+    from `parseHeaders`, so `16 ≤ H ≤ |f|`) -/
+theorem C09_instance_total (st : ChanState) (f : Bytes) (h : Headers) (hp : parseHeaders f = some h)
+    (i : Inst) : (instVerify st h i f).isPanic = false := by
+  have hb := parseHeaders_bounds f h hp
+  unfold instVerify receive
+  split
+  · simp [Out.isPanic]
+  · exact C09_total _ _ _ _ (by simp [paramsOf]; omega) (by simp [paramsOf]; omega)
+
+/-- TOTALITY of `readChunk`: for EVERY received frame (any bytes, any length),
+    every channel state, every certificate-derived algorithm: a chunk, an error
+    or EOF — never a panic. -/
+theorem C09_channel_total (derive : Bytes → Bytes → Option Inst) (uriIsNone : Bytes → Bool)
+    (st : ChanState) (f : Bytes) : (readChunk derive uriIsNone st f).2.isPanic = false := by
+  unfold readChunk
+  cases hp : parseHeaders f with
+  | none => simp [ROut.isPanic]
+  | some h =>
+    have fin : ∀ (st' : ChanState) (g : Option Inst),
+        (match channelVerify st' h g f with
+          | .err => (st', ROut.err)
+          | .panic s => (st', ROut.panic s)
+          | .ok d => if d.length < 8 then (st', ROut.err) else (st', ROut.deliver (d.take 8) (d.drop 8))).2.isPanic = false := by
+      intro st' g
+      have hc : (channelVerify st' h g f).isPanic = false := by
+        unfold channelVerify
+        cases g with
+        | some i => exact C09_instance_total st' f h hp i
+        | none => exact tryInstances_noPanic _ _ _ _ (fun i _ => C09_instance_total st' f h hp i)
+      cases hv : channelVerify st' h g f with
+      | ok d => simp only; split <;> simp [ROut.isPanic]
+      | err => simp [ROut.isPanic]
+      | panic s => simp [hv, Out.isPanic] at hc
+    simp only
+    cases h.kind with
+    | clo => simp [ROut.isPanic]
+    | msg => exact fin st none
+    | opn =>
+      simp only
+      cases st.opening with
+      | none => simp [ROut.isPanic]
+      | some op =>
+        simp only
+        split
+        · exact fin _ _
+        · cases derive h.uri h.cert with
+          | none => simp [ROut.isPanic]
+          | some a => exact fin _ _
+
+/-- a MSG chunk for a SecureChannelID without stored instances is an error -/
+theorem C09_channel_unknown_id (derive : Bytes → Bytes → Option Inst) (uriIsNone : Bytes → Bool)
+    (st : ChanState) (f : Bytes) (h : Headers) (hp : parseHeaders f = some h) (hk : h.kind = .msg)
+    (hnone : st.instances h.channelID = []) : readChunk derive uriIsNone st f = (st, .err) := by
+  simp [readChunk, hp, hk, channelVerify, hnone, tryInstances]
+
+/-- COVERAGE at the channel level: if `readChunk` returns a chunk, then the
+    headers decoded and SOME instance the channel may use for this chunk (the
+    stored instances of its SecureChannelID for MSG; the opening instance, or the
+    algorithm derived from the certificate in the chunk, for OPN) accepted ALL of
+    the frame's bytes: `instVerify = ok (sequence header ‖ body)`. Nothing is
+    delivered that no instance verified. -/
+theorem C09_covered_channel (derive : Bytes → Bytes → Option Inst) (uriIsNone : Bytes → Bool)
+    (st st' : ChanState) (f sh body : Bytes)
+    (hr : readChunk derive uriIsNone st f = (st', .deliver sh body)) :
+    ∃ h, parseHeaders f = some h ∧ ∃ i ∈ candidates derive uriIsNone st h,
+      instVerify st' h i f = .ok (sh ++ body) ∧ sh.length = 8 := by
+  unfold readChunk at hr
+  cases hp : parseHeaders f with
+  | none => simp [hp] at hr
+  | some h =>
+    refine ⟨h, rfl, ?_⟩
+    simp only [hp] at hr
+    have fin : ∀ (s1 : ChanState) (g : Option Inst),
+        (match channelVerify s1 h g f with
+          | .err => (s1, ROut.err)
+          | .panic s => (s1, ROut.panic s)
+          | .ok d => if d.length < 8 then (s1, ROut.err) else (s1, ROut.deliver (d.take 8) (d.drop 8)))
+          = (st', .deliver sh body) →
+        s1 = st' ∧ channelVerify s1 h g f = .ok (sh ++ body) ∧ sh.length = 8 := by
+      intro s1 g hm
+      cases hv : channelVerify s1 h g f with
+      | err => simp [hv] at hm
+      | panic s => simp [hv] at hm
+      | ok d =>
+        simp only [hv] at hm
+        by_cases h8 : d.length < 8
+        · simp [h8] at hm
+        · simp only [h8, if_false, Prod.mk.injEq, ROut.deliver.injEq] at hm
+          obtain ⟨rfl, rfl, rfl⟩ := hm
+          refine ⟨rfl, by rw [List.take_append_drop], ?_⟩
+          simp [List.length_take]; omega
+    cases hk : h.kind with
+    | clo => simp [hk] at hr
+    | msg =>
+      simp only [hk] at hr
+      obtain ⟨rfl, hv, h8⟩ := fin st none hr
+      unfold channelVerify at hv
+      obtain ⟨i, hi, hvi⟩ := tryInstances_ok _ _ _ _ _ hv
+      exact ⟨i, by simpa [candidates, hk] using hi, hvi, h8⟩
+    | opn =>
+      simp only [hk] at hr
+      cases ho : st.opening with
+      | none => simp [ho] at hr
+      | some op =>
+        simp only [ho] at hr
+        by_cases hn : uriIsNone h.uri = true
+        · simp only [hn, if_true] at hr
+          obtain ⟨rfl, hv, h8⟩ := fin _ _ hr
+          exact ⟨op, by simp [candidates, hk, ho, hn], by simpa [channelVerify] using hv, h8⟩
+        · simp only [hn, Bool.false_eq_true, if_false] at hr
+          cases hd : derive h.uri h.cert with
+          | none => simp [hd] at hr
+          | some a =>
+            simp only [hd] at hr
+            obtain ⟨rfl, hv, h8⟩ := fin _ _ hr
+            exact ⟨a, by simp [candidates, hk, ho, hn, hd], by simpa [channelVerify] using hv, h8⟩
+
+/-- … and on a channel in Sign or SignAndEncrypt mode that instance's signature
+    check succeeded over all bytes of header ‖ plaintext minus the signature. -/
+theorem C09_covered_channel_secured (derive : Bytes → Bytes → Option Inst) (uriIsNone : Bytes → Bool)
+    (st st' : ChanState) (f sh body : Bytes) (hm : st'.modeNone = false)
+    (hr : readChunk derive uriIsNone st f = (st', .deliver sh body)) :
+    ∃ h, parseHeaders f = some h ∧ ∃ i ∈ candidates derive uriIsNone st h, ∃ b,
+      decrypted (paramsOf st' h i) i.dec f = some b ∧
+      i.verify (b.take (b.length - i.RS)) (b.drop (b.length - i.RS)) = true ∧
+      b.take (b.length - i.RS) ++ b.drop (b.length - i.RS) = b := by
+  obtain ⟨h, hp, i, hi, hv, _⟩ := C09_covered_channel derive uriIsNone st st' f sh body hr
+  have hb := parseHeaders_bounds f h hp
+  refine ⟨h, hp, i, hi, ?_⟩
+  unfold instVerify at hv
+  rw [hm, C09_secured_mode_never_raw] at hv
+  obtain ⟨b, hd, hvb, hpart, _⟩ := C09_covered _ _ _ _ _ (by simp [paramsOf]; omega) hv
+  exact ⟨b, hd, hvb, hpart⟩
+
+/-- the retry loop tries the NEWEST stored instance first: what it accepts is
+    the result, whatever older instances would say -/
+theorem C09_channel_newest_first (st : ChanState) (h : Headers) (f d : Bytes) (older : List Inst) (newest : Inst)
+    (hi : st.instances h.channelID = older ++ [newest]) (hv : instVerify st h newest f = .ok d) :
+    channelVerify st h none f = .ok d := by
+  simp [channelVerify, hi, tryInstances, hv]
+
+/-- in Sign / SignAndEncrypt mode a MSG chunk whose signature verifies under
+    NONE of the stored instances of its channel is an error -/
+theorem C09_channel_rejected (derive : Bytes → Bytes → Option Inst) (uriIsNone : Bytes → Bool)
+    (st : ChanState) (f : Bytes) (h : Headers) (hp : parseHeaders f = some h) (hk : h.kind = .msg)
+    (hm : st.modeNone = false)
+    (hbad : ∀ i ∈ st.instances h.channelID, ∀ b, decrypted (paramsOf st h i) i.dec f = some b →
+      i.verify (b.take (b.length - i.RS)) (b.drop (b.length - i.RS)) = false) :
+    readChunk derive uriIsNone st f = (st, .err) := by
+  have hb := parseHeaders_bounds f h hp
+  have : channelVerify st h none f = .err := by
+    unfold channelVerify
+    apply tryInstances_err
+    intro i hi
+    unfold instVerify
+    rw [hm]
+    exact C09_secured_mode_rejects _ _ _ _ _ _ (by simp [paramsOf]; omega)
+      (fun b hd => hbad i (by simpa using hi) b hd)
+  simp [readChunk, hp, hk, this]
 
 /-! ### The three repaired defects: the former witnesses are now rejected -/
 
